@@ -1925,22 +1925,42 @@ class Isometry(projective.Transformation, HyperbolicObject):
 
     def _interior_fixed_vector(self):
         matrix = self.proj_data.swapaxes(-1, -2)
+
+        # c * A is the same isometry for every scalar c != 0: rescale
+        # so that the eigenvalue on the fixed subspace is 1 or -1
+        scale = np.abs(utils.det(matrix)) ** (1 / matrix.shape[-1])
+        matrix = matrix / scale[..., np.newaxis, np.newaxis]
+
         eigvals, eigvecs = utils.eig(matrix)
+        inverse = np.linalg.pinv(eigvecs)
 
-        fixed = np.abs(eigvals - 1) < np.sqrt(ERROR_THRESHOLD)
-        projection = ((eigvecs * fixed[..., np.newaxis, :]) @
-                      np.linalg.pinv(eigvecs))
+        # this eigenvalue is repeated, so it is computed to about eps *
+        # |A|^2. A looser tolerance would take the eigenvalues
+        # exp(+-i theta) of a rotation by a small angle for it as well.
+        tolerance = np.maximum(
+            ERROR_THRESHOLD, 1e3 * np.finfo(eigvals.dtype).eps *
+            np.abs(matrix).max(axis=(-1, -2), keepdims=True)[..., 0]**2
+        )
 
-        candidate = np.real(projection[..., 0])
-        image = np.squeeze(matrix @ candidate[..., np.newaxis], axis=-1)
-
-        with np.errstate(invalid="ignore"):
-            valid = (
-                np.isfinite(candidate).all(axis=-1) &
-                (utils.normsq(candidate, self.minkowski) < -ERROR_THRESHOLD) &
-                (np.abs(image - candidate).max(axis=-1) <
-                 ERROR_THRESHOLD * np.abs(candidate).max(axis=-1))
+        candidate, valid = 0., False
+        for sign in (1, -1):
+            fixed = np.abs(eigvals - sign) < tolerance
+            vector = np.real(
+                ((eigvecs * fixed[..., np.newaxis, :]) @ inverse)[..., 0]
             )
+            image = np.squeeze(matrix @ vector[..., np.newaxis], axis=-1)
+
+            with np.errstate(invalid="ignore"):
+                fixed_inside = (
+                    np.isfinite(vector).all(axis=-1) &
+                    (utils.normsq(vector, self.minkowski) < -ERROR_THRESHOLD) &
+                    (np.abs(image - sign * vector).max(axis=-1) <
+                     ERROR_THRESHOLD * np.abs(vector).max(axis=-1))
+                )
+
+            candidate = np.where(fixed_inside[..., np.newaxis],
+                                 vector, candidate)
+            valid = valid | fixed_inside
 
         return candidate, valid
 
